@@ -437,7 +437,7 @@ pub fn run(tier: &str) -> i32 {
     for i in 0..n0 {
         let graph = progs[i].key.starts_with("graph|");
         if (rep.thorough() && (!graph || hash64(&progs[i].key) % 8 == 1)) || (!rep.thorough() && hash64(&progs[i].key) % 4 == 1) {
-            for how in ["reverse", "entries-first"] {
+            for how in ["reverse", "entries-first", "interleave"] {
                 if let Some(src) = reorder_decls(&progs[i].src, how) {
                     progs.push(Prog { key: format!("{}|decl-order={how}", progs[i].key), src, groups: progs[i].groups });
                 }
